@@ -63,7 +63,7 @@ def stepLine (T : Tunables) (objs : Objs) (w : List String) : Objs × String :=
       match objs.get id with
       | some (.sk s) =>
         if !validWeight wt then (objs, "throw") else
-        match update s item wt false ds with
+        match update T s item wt false ds with
         | some (s1, ds1) => let c := consumed ds ds1; (objs.put id (.sk s1), obsSk T s1 c.1 c.2)
         | none => (objs.put id .dead, "throw")
       | _ => (objs, "dead")
@@ -107,7 +107,7 @@ def stepLine (T : Tunables) (objs : Objs) (w : List String) : Objs × String :=
     | some uid, some sid =>
       match objs.get uid, objs.get sid with
       | some (.un u), some (.sk s) =>
-        match u.update s ds with
+        match u.update T s ds with
         | some (u1, ds1) => let c := consumed ds ds1; (objs.put uid (.un u1), s!"U c={c.1},{c.2}")
         | none => (objs.put uid .dead, "throw")
       | _, _ => (objs, "dead")
